@@ -167,7 +167,9 @@ def make_case(i, rng, tier):
                 "mutual": mutual, "cyclic": d is not None and rng.random() < 0.12,
                 "cyc_link": rng.choice(["opt", "direct", "lst", "dct", "uni", "tup"]),
                 # how the limit reaches the classes: their own Options, or overriding runtime options given to the entry point
-                "deliver": "override" if (d is not None and rng.random() < 0.3) else "class"}
+                "deliver": "override" if (d is not None and rng.random() < 0.3) else "class",
+                # the limit is a hard stop whatever the error-reporting mode
+                "collect": rng.random() < 0.25}
     j = (i - N_EXACT[tier]) % 216
     FL = [{}, {"no_data_loss": True}, {"no_explicit_cast": True}, {"no_data_loss": True, "no_explicit_cast": True}]
     LEAVES = ["exact", "raw", "bad", "int-raw", "int-bad"]
@@ -200,7 +202,8 @@ def run_case(case, ctx):
     d, k, path = case["d"], case["k"], case["path"]
     try:
         deliver = case.get("deliver", "class")
-        top, classes = declare(case["base"], d if deliver == "class" else None, {}, mutual=case["mutual"])
+        cflags = {"collect_errors": True} if case.get("collect") else {}
+        top, classes = declare(case["base"], d if deliver == "class" else None, cflags, mutual=case["mutual"])
     except Exception as e:
         ctx.count("declaration_rejected:" + type(e).__name__)
         return
@@ -221,18 +224,24 @@ def run_case(case, ctx):
         steps = _S["steps"]
         if deliver == "override":
             from utype import Options
-            out = run(lambda: top.__from__(data, options=Options(max_depth=d, override=True)), steps=steps, limit=STEP_LIMIT if steps else None)
+            out = run(lambda: top.__from__(data, options=Options(max_depth=d, override=True, **cflags)), steps=steps, limit=STEP_LIMIT if steps else None)
         else:
             out = run(lambda: top.__from__(data) if case["base"] == "DataClass" else top(**data), steps=steps, limit=STEP_LIMIT if steps else None)
         ctx.count("calls")
         ctx.count("limit_delivered_by:" + deliver)
         links = tuple(p[0] for p in path)
         poss = tuple(str(p[1]) for p in path)
-        sig = (case["base"], case["mutual"], links, poss, d, k, cyc, deliver)
-        wit = {"base": case["base"], "mutual": case["mutual"], "max_depth": d, "limit_given_by": "class Options" if deliver == "class" else "__from__(options=Options(max_depth=d, override=True))", "input_depth": "cyclic" if cyc else k,
+        sig = (case["base"], case["mutual"], links, poss, d, k, cyc, deliver, bool(cflags))
+        wit = {"base": case["base"], "mutual": case["mutual"], "max_depth": d, "collect_errors": bool(cflags), "limit_given_by": "class Options" if deliver == "class" else "__from__(options=Options(max_depth=d, override=True))", "input_depth": "cyclic" if cyc else k,
                "path": [f"{l}[{p}]" for l, p in path], "outcome": repr(out)}
+        if out.kind == "steps" and d is not None:
+            # with a limit of d levels a parse touches at most the first d levels of the input: 4e6 LINE steps are
+            # three orders of magnitude above any such parse seen here (evidence: max steps of a terminating case)
+            ctx.violation("C18/depth/limit-does-not-bound-the-work",
+                          f"{case['base']} max_depth={d} collect_errors={bool(cflags)}, input depth {wit['input_depth']} via {wit['path']}: no result within {STEP_LIMIT} steps", wit, sig=sig)
+            return
         if out.kind == "steps":
-            ctx.inconclusive_case("step budget exhausted in an exactness case")
+            ctx.inconclusive_case("step budget exhausted in an exactness case without a limit")
             return
         if out.kind == "recursion" and cyc and d is None:
             ctx.trivial("cyclic without max_depth")
